@@ -57,6 +57,14 @@ class B:
                  sections=rng.choice([1, 1, 2, 3, 4]), u_w_per_m2k=u,
                  text_k=rng.choice([268.15, 283.15, 293.15]))
         d.update(kw)
+        r = rng.random()
+        if r < 0.2 and not lossless and "inner_diameter_mm" not in kw:
+            # library standard type with insulation: outer != inner diameter, u from u_w_per_mk
+            return self.add("create_pipe", "pipe", from_junction=d["from_junction"], to_junction=d["to_junction"],
+                            std_type=rng.choice(["ISOPLUS_DRE80_STD", "ISOPLUS_DRE100_STD", "ISOPLUS_DRE150_STD"]),
+                            length_km=d["length_km"], sections=d["sections"], text_k=d["text_k"])
+        if r < 0.55:
+            d["outer_diameter_mm"] = d["inner_diameter_mm"] * rng.choice([1.1, 1.25, 1.6])     # wall + insulation
         return self.add("create_pipe_from_parameters", "pipe", **d)
 
     def spec(self, **extra):
@@ -136,7 +144,7 @@ def mesh(rng):
 HC_MODES = ["MF_QE", "MF_DT", "MF_TR", "QE_DT", "QE_TR"]
 
 
-def loop(rng, n_cons=None, pump=None, modes=None, bidirectional_ok=True):
+def loop(rng, n_cons=None, pump=None, modes=None, bidirectional_ok=True, p_only=None):
     """supply / return ladder with a circulation pump; rung i carries a heat consumer (any mode), or a
     flow control + heat exchanger.  With a mass pump the last rung is a bypass pipe."""
     b = B(rng, rng.choice(["contig", "shuffled", "reversed", "sparse", "large"]))
@@ -148,6 +156,19 @@ def loop(rng, n_cons=None, pump=None, modes=None, bidirectional_ok=True):
         # junctions that are out of service / unused in front of the loop: internal positions != creation order
         for _ in range(rng.randint(1, 3)):
             b.add("create_junction", "junction", pn_bar=p0, tfluid_k=tf - rng.choice([10, 60]), in_service=rng.random() < 0.5)
+    ponly = (rng.random() < 0.35) if p_only is None else p_only
+    ponly_first = rng.random() < 0.6
+
+    def p_only_part():
+        # a part of the net that is pressure-fed but has no temperature feed (ext_grid type "p"): hydraulically
+        # active, thermally inactive - the thermal active set is a strict subset of the hydraulic one
+        js = [b.junction(t=tf - 30, p=p0) for _ in range(rng.randint(2, 3))]
+        b.add("create_ext_grid", "ext_grid", junction=js[0], p_bar=p0, t_k=tf - 30, type="p")
+        for x, y in zip(js, js[1:]):
+            b.pipe(x, y, reverse=rng.random() < 0.3)
+        b.add("create_sink", "sink", junction=js[-1], mdot_kg_per_s=rng.choice([0.5, 1.0]))
+    if ponly and ponly_first:
+        p_only_part()
     sup = [b.junction(t=tf - 5, p=p0) for _ in range(k + 1)]
     ret = [b.junction(t=tf - 40, p=p0) for _ in range(k + 1)]
     for i in range(k):
@@ -194,6 +215,10 @@ def loop(rng, n_cons=None, pump=None, modes=None, bidirectional_ok=True):
     else:
         b.add("create_circ_pump_const_pressure", "circ_pump_pressure", return_junction=ret[0], flow_junction=sup[0],
               p_flow_bar=p0, plift_bar=rng.choice([1.0, 2.0]), t_flow_k=tf)
+    if ponly and not ponly_first:
+        p_only_part()
+    if ponly:
+        rungs.append("p-only-part")
     if rng.random() < 0.35:
         # stand-by elements that are not calculated: an out-of-service second pump and an out-of-service consumer
         if rng.random() < 0.7:
